@@ -286,6 +286,9 @@ def make_variant(names, dest):
         if not fn.endswith(".py"):
             shutil.copy(p, os.path.join(dest, "artap", fn))
             continue
+        if fn == "__init__.py":
+            shutil.copy(p, os.path.join(dest, "artap", fn))
+            continue
         src = open(p, encoding="utf-8").read()
         tree = ast.parse(src)
         for nm in names:
@@ -312,9 +315,11 @@ def run_variant(args):
             for extra in ("setup.py", "setup.cfg", "pytest.ini", "tox.ini", "conftest.py"):
                 if os.path.exists(os.path.join(REPO, extra)):
                     shutil.copy(os.path.join(REPO, extra), tmp)
-            r = subprocess.run(["/venv/bin/python", "-m", "pytest", "-q", "-p", "no:cacheprovider", "--timeout=900", "--continue-on-collection-errors", "-x", "-q",
-                                "artap/tests/test_operators.py", "artap/tests/test_individual.py", "artap/tests/test_archive.py", "artap/tests/test_doe.py",
-                                "artap/tests/test_benchmark_functions.py", "artap/tests/test_swarm.py", "artap/tests/test_datastore.py"],
+            tests = ["artap/tests/" + t for t in ("test_operators.py", "test_archive.py", "test_benchmarks.py", "test_benchmark_pareto.py", "test_benchmark_robust.py",
+                                                   "test_generators.py", "test_datastore.py", "test_job.py", "test_results.py", "test_swarm.py", "test_gradients.py",
+                                                   "test_robust.py", "test_quality_indicator.py", "test_problem_nsga2.py", "test_problem_epsmoea.py", "test_problem_swarm.py",
+                                                   "test_algorithm.py", "test_calculation_fails.py")]
+            r = subprocess.run(["/venv/bin/python", "-m", "pytest", "-q", "-p", "no:cacheprovider", "--timeout=900", "--continue-on-collection-errors", "-q"] + tests,
                                cwd=tmp, capture_output=True, text=True)
             py = (r.returncode, (r.stdout.strip().splitlines() or [""])[-1])
         if keep:
